@@ -863,14 +863,17 @@ def _oracle_float(case, out):
         for it, idx in ((0, tr), (1, te)):
             exp[(fo, it)] = ([tf[i].hex() for i in idx],
                              [_fl(_dbl_pred(True, p, st, d["xs"][i]), sc).hex() for i in idx])
+    # (a) what is on disk: the text of every stored value parses (correctly rounded) to exactly the
+    #     double that fit-then-predict gives - so the store itself loses nothing
     for key, (rt, rp) in sorted(o.get("raw_pred", {}).items()):
         fo, it = int(key.split("/")[2]), int(key.split("/")[3])
         for what, texts, want in (("true value", rt, exp[(fo, it)][0]), ("prediction", rp, exp[(fo, it)][1])):
             got = [float(t).hex() for t in texts]
             if got != want:
                 bad = [(t, w) for t, g, w in zip(texts, got, want) if g != w]
-                return "stored-text-does-not-identify-the-stored-float: %s %s stored as %r" % (
-                    what, float.fromhex(bad[0][1]).__repr__(), bad[0][0])
+                return ("record-not-what-fit-then-predict-gives: float %s %r is on disk as the text %r "
+                        "(fold %d part %s)" % (what, float.fromhex(bad[0][1]), bad[0][0], fo, ITEMS[it]))
+    # (b) read back == stored, bit for bit
     for fo, it, recs in o["loaded"]:
         if recs is None:
             return "read-back-fails-after-complete-run: fold %d" % fo
